@@ -61,6 +61,13 @@ func storesAfter(a ssa.Value, g ssa.Instruction) []ssa.Instruction {
 	return out
 }
 
+func storesAfterIf(a ssa.Value, g ssa.Instruction) []ssa.Instruction {
+	if g == nil {
+		return nil
+	}
+	return storesAfter(a, g)
+}
+
 // closureStoresToFree: direct stores to the captured variable inside the closure (and nested closures).
 func closureStoresToFree(cl *ssa.Function, fv *ssa.FreeVar, seen map[*ssa.Function]bool) ssa.Instruction {
 	if seen[cl] {
@@ -143,10 +150,12 @@ func checkC05(p *Program, r *Report) {
 		"schedule independence is claimed as the consequence of R05.1–2 with R04.1–2 and R14 (no shared mutable location), not separately established")
 	eff := ComputeEffects(p)
 	models, _ := p.Registry()
-	wrapperOf := map[*ssa.Function]*Model{}
+	// the wrappers whose cells a go statement starts: one for a go statement in a wrapper's own Run, all of them for
+	// a shared spawning helper
+	wrappersOf := map[*ssa.Function][]*Model{}
 	for _, m := range models {
 		if m.GoClosure != nil {
-			wrapperOf[m.GoClosure] = m
+			wrappersOf[m.GoClosure] = append(wrappersOf[m.GoClosure], m)
 		}
 	}
 	// buffers aliasing the shared state array must not grow (cross-cell overlap through slice capacity)
@@ -234,8 +243,10 @@ func checkC05(p *Program, r *Report) {
 			r.OK("R05.6", fmt.Sprintf("%d goroutine bodies: no reachable write to a package-level variable", len(roots)))
 		}
 	}
-	r.Floor("R05.1", "go statements", len(sites), 43)
+	r.Floor("R05.1", "go statements", len(sites), 3)
+	nCellGoroutines := 0
 	for _, s := range sites {
+		ms := wrappersOf[s.cl]
 		key := fmt.Sprintf("%s:go#%d", FuncKey(s.fn), s.ord)
 		if s.cl == nil {
 			r.Undecided("R05.1", key, p.Pos(s.g.Pos()), "go statement with a dynamic target")
@@ -247,15 +258,25 @@ func checkC05(p *Program, r *Report) {
 			r.Fail("R05.1", key+":"+sub, pos, msg)
 		}
 		type capt struct {
-			cl *ssa.Function
-			mc *ssa.MakeClosure
+			cl    *ssa.Function
+			mc    *ssa.MakeClosure
+			after ssa.Instruction // from here on a goroutine reading the captured variables may run
 		}
 		caps := []capt{}
 		if s.mc != nil {
-			caps = append(caps, capt{s.cl, s.mc})
+			caps = append(caps, capt{s.cl, s.mc, s.g})
 		}
-		if m := wrapperOf[s.cl]; m != nil && m.ClosureMC != nil && m.Closure != s.cl {
-			caps = append(caps, capt{m.Closure, m.ClosureMC}) // the per-cell body the goroutine calls
+		for _, m := range ms {
+			if m.ClosureMC != nil && m.Closure != s.cl {
+				// the per-cell body the goroutine calls. When Run delegates the fan-out to a helper, the helper has joined
+				// every goroutine before Run continues (R05.2 on the helper's own go statement), so nothing Run does
+				// after the call can overlap with a cell
+				var after ssa.Instruction
+				if m.SpawnCall == nil {
+					after = m.SpawnAt
+				}
+				caps = append(caps, capt{m.Closure, m.ClosureMC, after})
+			}
 		}
 		for _, cp := range caps {
 			scl, smc := cp.cl, cp.mc
@@ -265,7 +286,7 @@ func checkC05(p *Program, r *Report) {
 				if st := closureStoresToFree(scl, fv, map[*ssa.Function]bool{}); st != nil {
 					fail(name+":assigned-in-goroutine", p.Pos(st.Pos()), fmt.Sprintf("captured variable %s is assigned inside the goroutine while the spawner and sibling goroutines share it", name))
 				}
-				for _, st := range storesAfter(b, s.g) {
+				for _, st := range storesAfterIf(b, cp.after) {
 					fail(name+":assigned-after-go", p.Pos(st.Pos()), fmt.Sprintf("captured variable %s is assigned by the spawner after a goroutine reading it may have started", name))
 				}
 				pt, ok := fv.Type().Underlying().(*types.Pointer)
@@ -288,7 +309,7 @@ func checkC05(p *Program, r *Report) {
 							for _, r2 := range refs(ld) {
 								if ia, ok := r2.(*ssa.IndexAddr); ok {
 									for _, r3 := range refs(ia) {
-										if st, ok := r3.(*ssa.Store); ok && st.Addr == ssa.Value(ia) && canReach(s.g, st) {
+										if st, ok := r3.(*ssa.Store); ok && st.Addr == ssa.Value(ia) && cp.after != nil && canReach(cp.after, st) {
 											fail(name+":element-written-after-go", p.Pos(st.Pos()), fmt.Sprintf("element of shared vector %s written by the spawner while goroutines read it", name))
 										}
 									}
@@ -297,7 +318,7 @@ func checkC05(p *Program, r *Report) {
 						}
 					}
 				case types.IsInterface(elem) && isNDType(elem):
-					if m := wrapperOf[s.cl]; m != nil {
+					if len(ms) > 0 {
 						// writes judged by the per-cell footprint rule
 						continue
 					}
@@ -315,7 +336,11 @@ func checkC05(p *Program, r *Report) {
 			}
 		}
 		// wrapper goroutines: the per-cell footprint (shared arrays)
-		if m := wrapperOf[s.cl]; m != nil && m.KernelCall != nil {
+		for _, m := range ms {
+			if m.KernelCall == nil {
+				continue
+			}
+			nCellGoroutines++
 			sub := NewReport("C04", r.Tier)
 			w := newWrapperCtx(p, sub, eff, m)
 			w.checkWriteFootprint()
@@ -334,6 +359,169 @@ func checkC05(p *Program, r *Report) {
 		}
 		checkJoin(p, r, s, key)
 	}
+	r.Floor("R05.1", "wrappers whose cell goroutines are analysed", nCellGoroutines, 41)
+	checkOwnCellIndex(p, r, models, "R05.9", false)
+}
+
+// checkOwnCellIndex (R05.9, and R04.9 with the bound clause): the index a cell's body works with is the spawn
+// loop's counter; for C04 the loop also has to run over exactly the cells of the states array.
+func checkOwnCellIndex(p *Program, r *Report, models []*Model, rule string, withBound bool) {
+	if withBound {
+		r.Rule(rule, "every cell is run, once: the index parameter of the per-cell body is bound, through the goroutine's argument (and through the spawning helper when Run delegates the fan-out), to the counter of the loop that starts the goroutines; that loop begins at 0, advances by 1 and ends at the cell extent of the states (or outputs) array Run was given")
+	} else {
+		r.Rule(rule, "every cell goroutine is given its own cell: the index parameter of the per-cell body is bound, through the goroutine's argument (and through the spawning helper when Run delegates the fan-out), to the counter of the loop that starts the goroutines, which begins at 0 and advances by 1 per goroutine — two goroutines never work on the same cell")
+	}
+	n := 0
+	for _, m := range models {
+		if !m.Vector || m.Run == nil || m.Closure == nil || m.GoInstr == nil {
+			continue
+		}
+		n++
+		key := m.RelPkg + "." + m.Name + ":own-cell"
+		why := cellIndexBinding(m)
+		if why == "" && withBound {
+			why = cellLoopBound(p, m)
+		}
+		if why != "" {
+			r.Fail(rule, key, p.Pos(m.GoInstr.Pos()), m.Name+": the cell goroutines are not each given their own cell index, or not every cell gets one: "+why+" — goroutines then write the same rows of states and outputs, or cells are never computed")
+		} else {
+			r.OK(rule, fmt.Sprintf("%s.%s: cell index = counter of the spawn loop in %s", m.RelPkg, m.Name, m.SpawnFn.Name()))
+		}
+	}
+	r.Floor(rule, "wrappers", n, 41)
+}
+
+// cellLoopBound: the spawn loop's bound is the cell extent of Run's states (or outputs) argument.
+func cellLoopBound(p *Program, m *Model) string {
+	g := m.GoInstr
+	l := innermostLoop(findLoops(g.Parent()), g.Block())
+	if l == nil {
+		return "the go statement is not in a loop"
+	}
+	_, _, hi, ok := countingLoop(l)
+	if !ok {
+		return "the loop that starts the goroutines is not a counting loop"
+	}
+	bound := origin1(hi)
+	if m.SpawnCall != nil {
+		k := -1
+		for i, prm := range m.SpawnFn.Params {
+			if ssa.Value(prm) == bound {
+				k = i
+			}
+		}
+		if k < 0 || k >= len(m.SpawnCall.Common().Args) {
+			return "the bound of the spawning helper's loop is not one of its parameters"
+		}
+		bound = origin1(m.SpawnCall.Common().Args[k])
+	}
+	call, ok := bound.(*ssa.Call)
+	if !ok || callName(call.Common()) != "Len" || recvOf(call.Common()) == nil || len(callArgs(call.Common())) != 1 {
+		return "the number of goroutines started is not the cell extent of an array (" + bound.String() + ")"
+	}
+	recv := origin1(recvOf(call.Common()))
+	dim, isConst := constInt(callArgs(call.Common())[0])
+	for idx, cname := range map[int]string{2: "DIMS_CELL", 3: "DIMO_CELL"} {
+		if idx < len(m.Run.Params) && recv == ssa.Value(m.Run.Params[idx]) {
+			if want, ok := simConst(p, cname); ok && isConst && dim == want {
+				return ""
+			}
+			return "the number of goroutines started is an extent of " + m.Run.Params[idx].Name() + ", but not its cell extent"
+		}
+	}
+	return "the number of goroutines started is not taken from the states or outputs array"
+}
+
+func cellIndexBinding(m *Model) string {
+	body := m.Closure
+	if len(body.Params) != 1 {
+		return fmt.Sprintf("the per-cell body takes %d parameters", len(body.Params))
+	}
+	g := m.GoInstr
+	var goArg ssa.Value // the value the go statement passes for the index
+	switch {
+	case m.GoClosure == body:
+		if len(g.Common().Args) != 1 {
+			return "the go statement does not pass exactly one argument"
+		}
+		goArg = g.Common().Args[0]
+	default:
+		gcl := m.GoClosure
+		if gcl == nil || len(gcl.Params) != 1 || len(g.Common().Args) != 1 {
+			return "the goroutine's function does not take exactly the cell index"
+		}
+		// the goroutine calls the body with its own parameter
+		found := false
+		for _, c := range callsIn(gcl) {
+			isBody := false
+			if mc := closureValueOfCaptured(c.Common().Value); mc != nil && mc.Fn == ssa.Value(body) {
+				isBody = true
+			}
+			if m.SpawnCall != nil && !c.Common().IsInvoke() && c.Common().StaticCallee() == nil {
+				for k := range m.SpawnFn.Params {
+					if isParamValue(c.Common().Value, m.SpawnFn, k) && k < len(m.SpawnCall.Common().Args) {
+						if mc := closureValueOf(m.SpawnCall.Common().Args[k]); mc != nil && mc.Fn == ssa.Value(body) {
+							isBody = true
+						}
+					}
+				}
+			}
+			if !isBody {
+				continue
+			}
+			found = true
+			if len(c.Common().Args) != 1 || origin1(c.Common().Args[0]) != ssa.Value(gcl.Params[0]) {
+				return "the goroutine calls the per-cell body with something other than its own argument"
+			}
+		}
+		if !found {
+			return "the call of the per-cell body inside the goroutine was not found"
+		}
+		goArg = g.Common().Args[0]
+	}
+	// the go statement's argument is the counter of the loop that contains it
+	phi, ok := origin1(goArg).(*ssa.Phi)
+	if !ok {
+		return "the argument of the go statement is not a loop counter (" + goArg.String() + ")"
+	}
+	loops := findLoops(g.Parent())
+	l := innermostLoop(loops, g.Block())
+	if l == nil || phi.Block() != l.Header {
+		return "the argument of the go statement is not the counter of the loop that starts the goroutines"
+	}
+	cphi, lo, _, ok := countingLoop(l)
+	if !ok || cphi != phi {
+		return "the loop that starts the goroutines is not a counting loop over its argument"
+	}
+	if c, ok := constInt(lo); !ok || c != 0 {
+		return "the loop that starts the goroutines does not begin at 0"
+	}
+	return ""
+}
+
+// closureValueOfCaptured: like closureValueOf, also through a variable captured from the enclosing function.
+func closureValueOfCaptured(v ssa.Value) *ssa.MakeClosure {
+	if mc := closureValueOf(v); mc != nil {
+		return mc
+	}
+	for _, o := range origins(v) {
+		u, ok := o.(*ssa.UnOp)
+		if !ok {
+			continue
+		}
+		fv, ok := u.X.(*ssa.FreeVar)
+		if !ok {
+			continue
+		}
+		if a, ok := bindingOf(fv.Parent(), freeVarIndex(fv.Parent(), fv)).(*ssa.Alloc); ok {
+			if sv := singleStoreCell(a); sv != nil {
+				if mc, ok := sv.(*ssa.MakeClosure); ok {
+					return mc
+				}
+			}
+		}
+	}
+	return nil
 }
 
 // sendsOn: Send instructions in fn.
